@@ -1,7 +1,7 @@
 (* rex/asynchronous.py follows the repaired stop() protocol for which Lifecycle.stop_returns is proved *)
 From Coq Require Import List Arith Bool.
 From Rex Require Import Lifecycle.
-From Rex Require Handshake.
+From Rex Require Handshake EventLoop.
 From Rex.Generated Require Import Lifecycle.
 Import ListNotations.
 Lemma stop_protocol_tie : protocol_mode stop_protocol_src = Some true.
@@ -12,4 +12,8 @@ Lemma accept_tie (M : Type) eps (m : nat * M) : accept_src eps m = accept eps m.
 Proof. unfold accept_src, accept. apply negb_involutive. Qed.
 (* the supervisor queues the action future before it publishes the observation: the variant for which Handshake.handshake_never_raises holds *)
 Lemma handshake_order_tie : Handshake.order_mode handshake_order_src = Some true.
+Proof. reflexivity. Qed.
+(* the three event-triggered connection handlers re-check after each processed entry: the variant for which
+   EventLoop.recheck_leaves_nothing_enabled holds (the code then fires exactly as the guard-based actor model does) *)
+Lemma handlers_recheck_tie : List.map EventLoop.mode_of handlers_recheck_src = [true; true; true].
 Proof. reflexivity. Qed.
